@@ -79,6 +79,9 @@ func c06Run(c *core.Ctx) {
 }
 
 func c06Replay(c *core.Ctx, payload json.RawMessage) {
+	if c06ZonesReplay(c, payload) {
+		return
+	}
 	var p c06Payload
 	if err := json.Unmarshal(payload, &p); err != nil {
 		fmt.Println("bad payload:", err)
